@@ -215,6 +215,8 @@ def _direct(ift, kl, o, op, rng):
             return ("inverse", "ADJOINT_INVERSE_TIMES is not the adjoint of INVERSE_TIMES")
     # linearity on random vectors (real coefficients for real-linear operators)
     for mode, p in pr.items():
+        if not kl.check_inverse and mode in (4, 8):
+            continue        # ill-conditioned inverse (smoothing kernel): rounding errors are amplified
         d, t = op._dom(mode), op._tgt(mode)
         n = dom_size(d)
         cplx = p.R is not None
